@@ -5,6 +5,8 @@ import BertE.Model.ApprovalsSpec
 import BertE.Lemmas.Approvals
 import BertE.Drv.C04
 import BertE.Lemmas.AuthorOptions
+import BertE.Lemmas.EvalGates
+import BertE.Drv.Eval
 /-
 C04 — the review gate passes exactly when approvals suffice.
 
@@ -332,5 +334,100 @@ example :
       [("alice", ["bypass_peer_approval"]), ("bob", [])] []).map
       (fun r => (BertE.AuthorOptions.authorBypass r "alice" "bypass_peer_approval",
                  BertE.AuthorOptions.authorBypass r "bob" "bypass_peer_approval")) = some (true, false) := by decide
+
+end BertE.C04
+
+
+/-! ### End to end: the review gate inside the composed evaluation (`Model/Eval.lean`)
+
+The approvals, change requests and participants are those the git host reports for THIS pull request, the author is
+its author, and `approve`, `unanimity` and the three bypasses are the options `handle_comments` computes from ITS
+comments (`Reaches.options`) together with the per-author settings of its author. -/
+namespace BertE.C04
+open BertE.Approvals BertE.Eval BertE.Flow BertE.Reactor
+
+/-- **C04, end to end.** If the evaluation of a pull request that was not queued before reaches the final stage
+    (entry into the queue, or direct merge), the property's five clauses hold of the host state of this pull
+    request with the options computed from its comments. -/
+theorem C04_e2e_entered {c : Eval.Cfg} {h : Host} {s : Sys} {id : Nat} {orc : List Bool} {sel : List Nat}
+    (hd : (evalPr c h s id orc sel).declined = false) (hf : (evalPr c h s id orc sel).stage = .final)
+    (hnq : alreadyQueued s (evalPr c h s id orc sel).pr = false) :
+    ∃ p st src pr sc dc l4 pushW, Entered c h s id orc sel p st src pr sc dc l4 pushW ∧
+      Spec.approved (approvalsCfg c (envFor c p) st) (approvalsInput p) := by
+  obtain ⟨p, st, src, pr, sc, dc, l4, pushW, he⟩ := evalPr_entered hd hf hnq
+  exact ⟨p, st, src, pr, sc, dc, l4, pushW, he, (C04_iff _ _).mp he.approvals⟩
+
+/-- The same, read off the plan: any operation other than a push of this pull request's `w/` branches (a queue
+    ref is created, a destination moves) means the review gate let it through. -/
+theorem C04_e2e_ops {c : Eval.Cfg} {h : Host} {s : Sys} {id : Nat} {orc : List Bool} {sel : List Nat}
+    (hd : (evalPr c h s id orc sel).declined = false)
+    (hnq : alreadyQueued s (evalPr c h s id orc sel).pr = false)
+    (hop : ∃ op ∈ (evalPr c h s id orc sel).plan.ops, ¬ Op.onlyW (evalPr c h s id orc sel).pr.src op) :
+    ∃ p st src pr sc dc l4 pushW, Entered c h s id orc sel p st src pr sc dc l4 pushW ∧
+      Spec.approved (approvalsCfg c (envFor c p) st) (approvalsInput p) := by
+  apply C04_e2e_entered hd _ hnq
+  apply Classical.byContradiction
+  intro hnf
+  obtain ⟨op, hmem, hno⟩ := hop
+  exact hno (evalPr_stops_at_w hd hnf op hmem)
+
+/-- **C04, end to end, the refusal.** The evaluation reaches the gates, no skew, and the clauses do not all hold:
+    the job ends as `ApprovalRequired`, which is posted on the pull request; the stage is `integration` and the
+    plan stops at the push of the `w/` branches (no queue ref, no destination ref). -/
+theorem C04_e2e_refused {c : Eval.Cfg} (hk : c.early.kind "ApprovalRequired" = some "template")
+    {h : Host} {s : Sys} {id : Nat} {orc : List Bool} {sel : List Nat}
+    {p : Eval.Pr} {st : State} {src : BertE.Names.Parsed} {pr : PrInfo} {sc dc : BertE.Git.Commit} {l4 : Loc}
+    {pushW : List Op} (hr : Reaches c h s id orc sel p st src pr sc dc l4 pushW) (hsk : p.facts.skew = false)
+    (hna : ¬ Spec.approved (approvalsCfg c (envFor c p) st) (approvalsInput p)) :
+    (evalPr c h s id orc sel).stage = .integration ∧
+    (evalPr c h s id orc sel).plan = ⟨l4.g, pushW, "gate", s.queue⟩ ∧
+    (evalPr c h s id orc sel).outcome = "ApprovalRequired" ∧
+    "ApprovalRequired" ∈ (evalPr c h s id orc sel).notified := by
+  obtain ⟨crs, hcrs, _⟩ := (C04_otherwise _ _).mp hna
+  obtain ⟨h1, h2, h3, h4⟩ := gates_approval_required c h s p pr st (greetingOf c h s p) sc l4 pushW hsk hcrs
+  rw [hr.eq]
+  refine ⟨h1, h3, ?_, ?_⟩
+  · rw [h2, evalL_raise_class]
+  · rw [h4, evalL_raise_template hk]
+    simp [decisionPosted]
+
+/-! Non-vacuity: one required peer approval; without it the job ends as `ApprovalRequired` at the integration
+    stage, with the approval of a peer (and green tips) the pull request enters the queue. -/
+
+def e2eCfg : Eval.Cfg :=
+  { reg := BertE.Drv.C07.genRegistry.withCmdLine ["bypass_jira_check", "bypass_build_status"]
+    env := ⟨["admin"], "", "robot", []⟩
+    authorOptions := []
+    early := BertE.Drv.C12.genTbl
+    build := BertE.Drv.C06.genTbl
+    buildKey := "pre-merge"
+    approvals := { requiredPeers := 1, requiredLeaders := 0, needAuthor := false, projectLeaders := ["admin"],
+                   robot := "robot", bypassAuthorS := false, bypassAuthorA := false, bypassPeerS := false,
+                   bypassPeerA := false, bypassLeaderS := false, bypassLeaderA := false, approve := false,
+                   unanimity := false }
+    jira := ⟨false, false, [], [], "", "", [], false⟩
+    ticketless := BertE.Drv.Eval.ticketlessOf
+    maxCommitDiff := 0
+    createBranches := true
+    createPrs := false }
+
+def e2eSys : Sys :=
+  (step (BertE.Drv.C01.initSys true false [.dev 4 (some 3), .dev 5 (some 1)]) (.extSet "feature/TEST-1" [1] false)).1
+
+def e2eHost (approvals : List String) : Host :=
+  ⟨[{ id := 1, author := "contrib", src := "feature/TEST-1", dst := "development/4.3", status := "OPEN",
+      comments := [], approvals := approvals, changeRequests := [], participants := approvals }], [], []⟩
+
+example : (evalPr e2eCfg (e2eHost []) e2eSys 1 [] []).stage = .integration ∧
+    (evalPr e2eCfg (e2eHost []) e2eSys 1 [] []).outcome = "ApprovalRequired" ∧
+    (evalPr e2eCfg (e2eHost []) e2eSys 1 [] []).notified = ["InitMessage", "IntegrationDataCreated", "ApprovalRequired"] := by
+  decide +kernel
+
+example : (evalPr e2eCfg (e2eHost ["peer1"]) e2eSys 1 [] []).stage = .final ∧
+    (evalPr e2eCfg (e2eHost ["peer1"]) e2eSys 1 [] []).declined = false ∧
+    alreadyQueued e2eSys (evalPr e2eCfg (e2eHost ["peer1"]) e2eSys 1 [] []).pr = false ∧
+    (evalPr e2eCfg (e2eHost ["peer1"]) e2eSys 1 [] []).outcome = "Queued" := by decide +kernel
+
+example : e2eCfg.early.kind "ApprovalRequired" = some "template" := by decide +kernel
 
 end BertE.C04
